@@ -510,7 +510,7 @@ def check_c02(prog, rep, tier, cfg):
         bdy = prog.body(TS + fn)
         if not rep.check(bdy is not None, R, "anchor:" + fn, "%s not found" % fn):
             continue
-        t = Table(prog, bdy)
+        t = Table(prog, bdy, inline=1)          # (`token_type.is_none_or(|t| matches!(t, ..))`: the closure's own table is expanded)
         bad = []
         nz = 0
         for cons, res in t.rows:
